@@ -29,7 +29,7 @@ import numpy as np
 
 from . import lib
 
-GEN = os.path.join(lib.COQ, 'gen')
+GEN = lib.GEN
 OBL = os.path.join(GEN, 'obl')
 GENFLAGS = ['-R', GEN, 'PMGen']
 KEYS = ['t', 'u']
@@ -69,6 +69,8 @@ def regenerate(ctx, Pm):
                 pass
     env = dict(os.environ)
     env['VERIF_REPO'] = lib.REPO
+    env['VERIF_GEN'] = lib.GEN
+    env['VERIF_BUILD'] = lib.BUILD
     env['PYTHONPATH'] = lib.VERIF
     t0 = time.time()
     p = subprocess.run([sys.executable, '-m', 'tools.regen.tracer_c06'], cwd=lib.VERIF, env=env,
@@ -292,7 +294,10 @@ NO_RECURSIVE_OPTION = {'add', 'sub', 'mul', 'div', 'radd', 'rsub', 'rmul', 'rdiv
                        'matmul', 'matvec', 'qmul', 'absneg'}
 # root-only relabelings / reductions (need a leading shape)
 ROOT_OPS = ['sum0', 'sum_last', 'mean0', 'mean_last', 'sum_all', 'mean_all', 'index_rev', 'index_first',
-            'reshape_flat', 'swap_axes', 'stack', 'index_ell']
+            'reshape_flat', 'swap_axes', 'stack', 'index_ell',
+            # axis given as a tuple / list, with negative entries (seeded change C06-C), and the other relabelings
+            'sum_tneg', 'mean_tneg', 'sum_t0neg', 'mean_lneg', 'sum_tall', 'mean_tneg2', 'roll_axis', 'move_axis',
+            'flatten', 'index_neg', 'index_arr']
 KERNEL_FAMILY = [('add', 'arith'), ('sub', 'arith'), ('mul', 'arith'), ('div', 'arith'), ('r', 'arith'), ('neg', 'arith'),
                  ('mod', 'mod'), ('pow', 'power'), ('abs', 'func'), ('sin', 'func'), ('cos', 'func'), ('tan', 'func'),
                  ('arcsin', 'func'), ('arccos', 'func'), ('arctan2', 'arctan2'), ('arctan', 'func'), ('sqrt', 'func'),
@@ -622,6 +627,28 @@ def apply_root(Pm, root, r, rec=True):
         return r.sum(**kw)
     if root == 'mean_all':
         return r.mean(**kw)
+    if root == 'sum_tneg':
+        return r.sum(axis=(-1,), **kw)
+    if root == 'mean_tneg':
+        return r.mean(axis=(-1,), **kw)
+    if root == 'sum_t0neg':
+        return r.sum(axis=((0, -1) if nd >= 2 else (-1,)), **kw)
+    if root == 'mean_lneg':
+        return r.mean(axis=[-1], **kw)
+    if root == 'sum_tall':
+        return r.sum(axis=tuple(range(-nd, 0)), **kw)
+    if root == 'mean_tneg2':
+        return r.mean(axis=((-2,) if nd >= 2 else (-1,)), **kw)
+    if root == 'roll_axis':
+        return r.roll_axis(-1, 0, **kw)
+    if root == 'move_axis':
+        return r.move_axis(0, -1, **kw)
+    if root == 'flatten':
+        return r.flatten(**kw)
+    if root == 'index_neg':
+        return r[..., -1]
+    if root == 'index_arr':
+        return r[np.array([0, 0])]
     if root == 'index_rev':
         return r[::-1]
     if root == 'index_first':
